@@ -401,4 +401,15 @@ def r7_escaped_is_utf8(ctx):
         ctx.floor("R7", "events built from strings", n, 5, config=cfg)
 
 
-RULES = [("R1", r1_sets), ("R2", r2_inverse), ("R2b", r2b_copy_discipline), ("R3", r3_borrowed), ("R4", r4_pairing), ("R5", r5_charref), ("R6", r6_unescape_copies), ("R7", r7_escaped_is_utf8)]
+def r8_constructors(ctx):
+    """every constructor that takes text (BytesText::new, the (&str, &str) / (&str, Cow<str>) attribute conversions,
+    push_attribute) stores escape(text), on every arm (C09 R1 re-evaluated)"""
+    import c09
+    n0 = len(ctx.obs)
+    c09.r1_escaping(ctx)
+    for o in ctx.obs[n0:]:
+        o["site"] = "constructors:" + o["site"]
+        o["rule"] = "R8"
+
+
+RULES = [("R1", r1_sets), ("R2", r2_inverse), ("R2b", r2b_copy_discipline), ("R3", r3_borrowed), ("R4", r4_pairing), ("R5", r5_charref), ("R6", r6_unescape_copies), ("R7", r7_escaped_is_utf8), ("R8", r8_constructors)]
